@@ -45,7 +45,7 @@ struct Runner {
     using Arr = tulz::Array<T>;
     using E = Elem<T>;
     static constexpr bool kClass = std::is_class_v<T>;
-    static constexpr bool kTracked = std::is_same_v<T, Tracked>;
+    static constexpr bool kTracked = std::is_base_of_v<Tracked, T>;
     static constexpr bool kString = std::is_same_v<T, std::string>;
 
     struct Slot {
@@ -398,7 +398,7 @@ int main(int argc, char **argv) {
     rt::init(argc, argv);
     LifeRegistry::get().prop = "C14";
     LifeRegistry::get().context = histTail;
-    std::string types = rt::optStr("types", "int,double,byte,tracked,tracked,string");
+    std::string types = rt::optStr("types", "int,double,byte,tracked,tracked,tracked-throwing-move,string");
     std::vector<std::string> tl;
     for (size_t p = 0; p <= types.size();) {
         size_t q = types.find(',', p);
@@ -421,6 +421,7 @@ int main(int argc, char **argv) {
         else if (t == "double") runCase<double>(s, steps);
         else if (t == "byte") runCase<unsigned char>(s, steps);
         else if (t == "tracked") runCase<Tracked>(s, steps);
+        else if (t == "tracked-throwing-move") runCase<rt::TrackedThrowingMove>(s, steps);
         else if (t == "string") runCase<std::string>(s, steps);
     }
     rt::dumpFingerprints(C.fps);
